@@ -144,6 +144,16 @@ func injectConsts(k *h.Case, g *spec.Gen, prog *spec.Program) []*constDef {
 		}
 		out[i] = c
 		k.Count("const_use_"+what, 1)
+		if r.IntN(10) == 0 {
+			// a sign glued to the constant's name (`-LIMIT`): still a use of the constant. Only for constants whose
+			// value starts with an identifier, so that the written-out form `-VALUE` lexes the same way
+			for _, d := range defs {
+				if "$"+d.name == c && len(d.expand) > 0 && isIdentTok(d.expand[0]) && !d.isBool {
+					out[i] = "-" + c
+					k.Count("const_use_with_glued_minus", 1)
+				}
+			}
+		}
 		return out
 	}
 	var cmd func(item int, c *spec.Cmd)
